@@ -148,6 +148,15 @@ theorem C16_fastpath_cr_witness :
     prep (flat q) = flat q ∧ fastEligible (flat q) = true ∧ rewrite (some (S "prod")) (flat q) = flat q ∧
       rewrite (some (S "prod")) (flat q) ≠ unmask (specFlat (some (S "prod")) q) := by decide
 
+/-- header, table function after the only "from ": the fast path has no call guard (isDotOrCallAt is only
+consulted by the regex passes), `range` becomes a measurement. -/
+theorem C16_tablefunc_fast_witness :
+    let q := tk [.w (S "SELECT"), sp, .w (S "g"), sp, .w (S "FROM"), sp, .w (S "range"), .p '(', .n (S "1"), .p ',', sp, .n (S "3"), .p ')',
+      sp, .w (S "t"), .p '(', .w (S "g"), .p ')']
+    prep (flat q) = flat q ∧ fastEligible (flat q) = true ∧ baseTableRefs q = [] ∧
+      rewrite (some (S "prod")) (flat q) ≠ unmask (specFlat (some (S "prod")) q) ∧
+      rewrite none (flat q) = unmask (specFlat none q) := by decide
+
 /-- header, `WITH` followed by a newline: "with " is not in the text, the CTE names are not collected. -/
 theorem C16_with_newline_witness :
     let q := tk [.w (S "WITH"), .s ['\n'], .w (S "r"), sp, .w (S "AS"), sp, .p '(', .w (S "SELECT"), sp, .n (S "1"), .p ')', sp] ++
